@@ -131,6 +131,151 @@ def ambient_family(run, rt):
                 wall_s=round(time.time() - t0, 1), origin_s=round(t_origin, 1))
 
 
+def _load_elsewhere(blobs, hashseed="777"):
+    """{key: pickle bytes} -> {key: c16_ambient.describe(...) | {"error": ...}} as seen by a fresh interpreter (or the stderr tail when it died)."""
+    import shutil
+    tmp = tempfile.mkdtemp(prefix="c16_opt_", dir=common.BUILD)
+    try:
+        path = os.path.join(tmp, "blobs.pkl")
+        pickle.dump(blobs, open(path, "wb"))
+        env = dict(os.environ)
+        env["PYTHONHASHSEED"] = hashseed
+        env["PYTHONPATH"] = common.REPO
+        p = subprocess.run([common.PY, "-c", AMBIENT_LOADER % (os.path.join(common.VERIF, "harness"), path)], env=env,
+                           stdout=subprocess.PIPE, stderr=subprocess.PIPE, text=True, timeout=3000)
+        if p.returncode != 0:
+            return p.stderr[-1000:]
+        return json.loads([l for l in p.stdout.split("\n") if l.startswith("@@")][-1][2:])
+    finally:
+        shutil.rmtree(tmp, ignore_errors=True)
+
+
+def _options_diff(case, loc, rem):
+    """None, or (what, fresh process, originating process)"""
+    import c16_ambient as A
+    if "error" in rem:
+        return ("error", rem["error"], None)
+    for what in A.FIELDS:
+        if what == "row order" and not case["ordered"]:
+            continue
+        if loc[what] != rem[what]:
+            return (what, rem[what], loc[what])
+    return None
+
+
+def replay(path):
+    """Replays of the option-carrying-operators family (the other kinds are replayed by a run with the recorded seed)."""
+    import random
+    import rt
+    import c16_ambient as A
+    import c16_groupby as G
+    with open(path) as f:
+        d = json.load(f)
+    rec = d.get("case") or {}
+    if rec.get("kind") not in ("options", "options-pickle"):
+        print("C16: replay by `VERIF_SEED=%s ./check C16 --tier %s`" % (d.get("seed"), d.get("tier")))
+        return 2
+    case, fn, history = rec["case"], rec["form"], rec["history"]
+    T = G.tables(random.Random(case["tables"]))
+    x = A.forms(rt.dx)[fn](G.build(rt.dx, T, case))
+    if history == "fresh":
+        blob = try_(lambda: pickle.dumps(x))
+        loc = A.describe(x)
+    else:
+        loc = A.describe(x)
+        try_(lambda: G.use(rt.dx, x))
+        blob = try_(lambda: pickle.dumps(x))
+    if blob[0] == "raise":
+        print("C16 replay: cannot be pickled: %s" % blob[1])
+        return 1
+    remote = _load_elsewhere({"x": blob[1]})
+    if isinstance(remote, str):
+        print("C16 replay: receiving interpreter failed: %s" % remote)
+        return 1
+    diff = _options_diff(case, loc, remote["x"])
+    if diff is None:
+        print("C16 replay: %s agrees in both processes" % G.case_key(case, fn, history))
+        return 0
+    print("C16 replay: %s: %s: fresh process %s vs originating process %s" % (G.case_key(case, fn, history), diff[0], _short(diff[1]), _short(diff[2])))
+    return 1
+
+
+def options_family(run, rt):
+    """Grouped aggregations (every GroupBy method x key kind x selection x sort / dropna / observed x split_every / split_out / ddof / ...)
+    and other operators that carry option containers among their operands (see c16_groupby.py): pickled right after they were built and
+    again after the originating process has used them, in every form, loaded by a fresh interpreter."""
+    import random
+    import time
+    import c16_ambient as A
+    import c16_groupby as G
+    t0 = time.time()
+    quick = run.tier == "quick"
+    table_seed = run.rng.randrange(10 ** 6)
+    T = G.tables(random.Random(table_seed))
+    cases = G.plan_cases(run.rng, quick)
+    for case in cases:
+        case["tables"] = table_seed         # a case dict is sufficient to rebuild the query (see `replay`)
+    forms = A.forms(rt.dx)
+    blobs, local, origin = {}, {}, {}
+    unbuildable, uncomputable, changed_by_use = [], [], []
+    for case in cases:
+        label = case.get("agg", case.get("op"))
+        c = try_(lambda: G.build(rt.dx, T, case))
+        if c[0] == "raise":
+            unbuildable.append(label)
+            continue
+        for fn in case["forms"]:
+            x = try_(lambda: forms[fn](c[1]))
+            if x[0] == "raise":
+                uncomputable.append(label + "|" + fn)
+                continue
+            fresh = try_(lambda: pickle.dumps(x[1]))            # before anything else looks at the object
+            d = try_(lambda: A.describe(x[1]))
+            if d[0] == "raise":
+                uncomputable.append(label + "|" + fn)           # the originating process cannot compute it either: nothing to compare with
+                continue
+            try_(lambda: G.use(rt.dx, x[1]))
+            used = try_(lambda: pickle.dumps(x[1]))             # after the session has looked at it, planned it and computed it
+            for history, b in (("fresh", fresh), ("used", used)):
+                key = G.case_key(case, fn, history)
+                if b[0] == "raise":
+                    run.count(("options", key))
+                    run.violation("%s cannot be pickled: %s" % (key, b[1]), {"kind": "options-pickle", "case": case, "form": fn, "history": history})
+                    continue
+                if history == "used" and fresh[0] == "ok" and b[1] == fresh[1]:
+                    continue                                    # byte-identical to the fresh pickle: the same case
+                if history == "used":
+                    changed_by_use.append(label + "|" + fn)
+                origin[key] = (case, fn, history)
+                blobs[key], local[key] = b[1], d[1]
+    t_origin = time.time() - t0
+    remote = _load_elsewhere(blobs)
+    if isinstance(remote, str):
+        run.broken_tie("receiving interpreter failed (options family)", remote)
+        return
+    bad = 0
+    per_op = {}
+    for key, loc in local.items():
+        case, fn, history = origin[key]
+        label = case.get("agg", case.get("op"))
+        run.count(("options", key))
+        per_op[label] = per_op.get(label, 0) + 1
+        diff = _options_diff(case, loc, remote.get(key, {"error": "missing"}))
+        if diff is None:
+            continue
+        bad += 1
+        rec = {"kind": "options", "case": case, "form": fn, "history": history, "what": diff[0], "fresh": _short(diff[1]), "origin": _short(diff[2])}
+        if diff[0] == "error":
+            run.violation("%s: loading / computing in a fresh process fails: %s" % (key, diff[1]), rec)
+        else:
+            run.violation("%s: %s differs after the round trip (pickled %s): fresh process %s vs originating process %s"
+                          % (key, diff[0], "right after it was built" if history == "fresh" else "after the originating process used it",
+                             _short(diff[1]), _short(diff[2])), rec)
+    run.section("option-carrying-operators", cases=len(cases), objects=len(local), differing=bad, unbuildable=sorted(set(unbuildable)),
+                uncomputable_in_origin=sorted(set(uncomputable))[:20], pickle_changed_by_use=sorted(set(changed_by_use))[:20], per_operator=per_op,
+                wall_s=round(time.time() - t0, 1), origin_s=round(t_origin, 1))
+
+
 def run(run):
     import rt
     import catalogue
@@ -142,7 +287,12 @@ def run(run):
                 "name, npartitions, divisions, schema and computed result compared with the originating process; non-trivial = every (query, form); "
                 "plus the ambient-configuration family (c16_ambient.py): merges / joins (join kind x how x broadcast x partition counts), shuffles, set_index, sort_values, "
                 "groupby.*, drop_duplicates, unique, value_counts and string readers planned, described and pickled INSIDE a dask.config.set(...) context "
-                "(dataframe.shuffle.method, dataframe.convert-string) of the originating process and loaded by a fresh interpreter with the default configuration")
+                "(dataframe.shuffle.method, dataframe.convert-string) of the originating process and loaded by a fresh interpreter with the default configuration; "
+                "plus the option-carrying-operators family (c16_groupby.py): every GroupBy method (count ... cov, corr, var, std, agg specs, median, nunique, head, apply, "
+                "transform, cum*, get_group) x key kind (int, string, float with NaN, categorical, two keys, derived series) x frame / column list / single column x "
+                "sort / dropna / observed x split_every / split_out / ddof / numeric_only / min_count / n x partition counts x missing values, and ~55 non-groupby operators "
+                "with dict / list / user keyword operands (cov, corr, var, quantile, fillna, replace, rename, astype, map_partitions, rolling, ...), each pickled right after it "
+                "was built AND after the originating process used it (schema, divisions, optimize, lower, compute), in the as-built, optimized and lowered form")
     run.proofs("PropC16.v")
     quick = run.tier == "quick"
     catalogue.write_parquet_dataset(rt.dx, os.path.join(common.BUILD, "cat_pq_c16"))
@@ -208,4 +358,5 @@ def run(run):
                 break
     run.section("roundtrip", objects=len(local), differing=bad, forms=list(forms))
     ambient_family(run, rt)
+    options_family(run, rt)
     run.sample({"object": "set_index-a|optimized", "observed": local.get("set_index-a|optimized", {}).get("divisions")})
